@@ -5,4 +5,4 @@ import gen,sys
 g=gen.Gen('/repo', '/tmp/walrus-expanded.rs')
 g.run('$1.vrs')
 g.write('/verif/gen/$1.rs')
-" && cd /verif/gen && verus $1.rs --triggers-mode silent ${@:2} 2>&1 | head -${LINES_MAX:-100}
+" && cd /verif/gen && RUST_MIN_STACK=2000000000 verus $1.rs --triggers-mode silent ${@:2} 2>&1 | head -${LINES_MAX:-100}
